@@ -207,6 +207,48 @@ theorem fields_roundtrip (fmt : List Seg) (env : Env) (h : allTrunc fmt = true) 
     · simp only [readFields, hr.1, ih'.1, List.map_cons]; rfl
     · simp only [readFields, hr.2, ih'.2, List.map_cons]; rfl
 
+/-- **overflow_local at record level.**  Whatever some values do to their own columns (overflow,
+blanks at the ends): if the record can be read at all, every column whose value fits returns
+exactly the value written.  No hypothesis on the other columns. -/
+theorem fields_overflow_local (fmt : List Seg) (env : Env) (h : allTrunc fmt = true)
+    (rd : List Char → RSlice → Except Err RVal) (hrd : rd = readFieldPdb ∨ rd = readFieldGro)
+    (spec : RSlice → Spec) : ∀ (slices : List RSlice) (props : Props),
+    (∀ sl ∈ slices, covers fmt sl.name sl.start sl.stop = some (spec sl) ∧ (spec sl).fill = ' ' ∧
+      kindOk (spec sl) sl.ty (env sl.name)) →
+    readFields rd (render fmt env) slices = .ok props →
+    props.map Prod.fst = slices.map (·.name) ∧
+    ∀ sl ∈ slices, fitsField (spec sl) (env sl.name) → (sl.name, expected (spec sl) (env sl.name)) ∈ props
+  | [], props, _, hok => by
+      simp only [readFields] at hok
+      cases hok
+      exact ⟨rfl, fun sl hsl => by cases hsl⟩
+  | sl :: rest, props, hall, hok => by
+      simp only [readFields, bind, Except.bind, pure, Except.pure] at hok
+      cases hv : rd (render fmt env) sl with
+      | error e => rw [hv] at hok; cases hok
+      | ok v =>
+        rw [hv] at hok
+        simp only at hok
+        cases hr : readFields rd (render fmt env) rest with
+        | error e => rw [hr] at hok; cases hok
+        | ok r =>
+          rw [hr] at hok
+          simp only at hok
+          cases hok
+          have ih := fields_overflow_local fmt env h rd hrd spec rest r (fun s hs => hall s (by simp [hs])) hr
+          refine ⟨by simp [ih.1], ?_⟩
+          intro sl' hsl' hfit
+          rcases List.mem_cons.mp hsl' with heq | hmem
+          · subst heq
+            have hs := hall sl' (by simp)
+            have hrt := field_roundtrip fmt env sl'.name sl'.ty sl'.start sl'.stop (spec sl') h hs.1 hs.2.1 hs.2.2 hfit
+            have : v = expected (spec sl') (env sl'.name) := by
+              rcases hrd with hrd | hrd <;> subst hrd
+              · rw [hrt.1] at hv; cases hv; rfl
+              · rw [hrt.2] at hv; cases hv; rfl
+            rw [this]; simp
+          · exact List.mem_cons_of_mem _ (ih.2 sl' hmem hfit)
+
 /-! ## CONECT records -/
 
 /-- **conect_roundtrip** (record level).  For a layout whose CONECT numbers are `t`-truncated
